@@ -177,13 +177,27 @@ NEUTRAL_FLAVOUR[9] = (
     "same patch. In notes.md say what was added and why the property still holds (including for the new instance).")
 
 
+# round 10: breakage that arrives as growth.  The patch adds a plausible feature inside the property's territory - and the feature itself (not a
+# side effect elsewhere) makes the property false for some input / history.
+SEED_FLAVOUR[10] = ("ROUND-SPECIFIC INSTRUCTIONS: each of the two variants must be a FEATURE ADDITION inside the property's own territory - one more settable "
+                    "attribute / CLI setting / property-protocol setting, one more command, response class or response field, one more capability or enum member, "
+                    "one more optional parameter with a default, a new accessor, a new convenience method (reset / disconnect / deauthenticate / clear), a new "
+                    "configurable limit or timeout - written the way the existing code is written, with its own tests if you like, and looking complete and "
+                    "reviewed. But the feature is subtly wrong in a way that makes THE PROPERTY ABOVE false for some input, history or schedule that the "
+                    "property quantifies over (including inputs that never use the new feature, if the feature's plumbing disturbs them): a new flag that shares a "
+                    "bit with an existing field, a default that changes bytes on the wire, a new optional field read without a length guard, a new enum member "
+                    "that makes an old value ambiguous, a convenience method that leaves half of a state pair behind, a configurable limit that admits a value "
+                    "breaking an invariant, a new response class that skips validation, a new setting the CLI accepts but converts wrongly. The 65 existing "
+                    "tests must still pass. Variant a and variant b must be different kinds of feature.")
+
+
 def sh(cmd):
     return subprocess.run(cmd, shell=True, capture_output=True, text=True)
 
 
 VERIF = os.path.dirname(os.path.dirname(os.path.abspath(__file__)))
 BASELINE = json.load(open("/root/.vp/BASELINE.json"))["stable_pass"]
-LETTERS = {3: {"a": "e", "b": "f"}, 4: {"a": "g", "b": "h"}, 5: {"a": "i", "b": "j"}, 6: {"a": "k", "b": "l", "c": "m", "d": "n"}, 7: {"a": "o", "b": "p"}, 8: {"a": "q", "b": "r"}}          # seeds: round -> variant -> suffix under /verif/seeded
+LETTERS = {3: {"a": "e", "b": "f"}, 4: {"a": "g", "b": "h"}, 5: {"a": "i", "b": "j"}, 6: {"a": "k", "b": "l", "c": "m", "d": "n"}, 7: {"a": "o", "b": "p"}, 8: {"a": "q", "b": "r"}, 10: {"a": "s", "b": "t"}}          # seeds: round -> variant -> suffix under /verif/seeded
 NUMBERS = {3: {"r1": "r8", "r2": "r9", "r3": "r10"}, 4: {"r1": "r11", "r2": "r12", "r3": "r13"}, 5: {"r1": "r14", "r2": "r15", "r3": "r16"},
            6: {"r1": "r17", "r2": "r18", "r3": "r19", "r4": "r20", "r5": "r21"}, 7: {"r1": "r22", "r2": "r23", "r3": "r24"}, 8: {"r1": "r25", "r2": "r26"}, 9: {"r1": "r27", "r2": "r28"}}
 
